@@ -345,7 +345,7 @@ def _work_circ(res, p):
         sim = make_sim(variant)
         try:
             wf = sim.get_wavefunction(c, psi)
-            amp = wf._amplitude_vector
+            amp = wf.amplitudes
         except Exception as e:
             res.ob(1)
             pp = dict(p, variant=variant)
@@ -396,7 +396,7 @@ def _work_mpo(res, p):
         sim = make_sim(variant)
         try:
             wf = sim.get_wavefunction(c, init)
-            amp = wf._amplitude_vector
+            amp = wf.amplitudes
         except Exception as e:
             res.ob(1)
             _cand(res, "mpo-simulator:" + variant, f"simulator[{variant}].get_wavefunction raised {type(e).__name__}: {e}", dict(p, variant=variant), {}, "mpo-simulator:" + variant)
@@ -701,7 +701,7 @@ def replay(data):
                 wf = sim.get_wavefunction(c, init)
             except Exception as e:
                 return True, f"raised {type(e).__name__}: {e}"
-            return differs(ev(wf._amplitude_vector), O @ psi0)
+            return differs(ev(wf.amplitudes), O @ psi0)
         psi = gen_state(1 << n)
         if clause == "sequential-apply":
             st = psi
@@ -717,7 +717,7 @@ def replay(data):
             if clause.startswith("split-width"):
                 ws = getattr(sim, "width_seen", [])
                 return any(w != n for w in ws), f"widths {ws}"
-            return differs(ev(wf._amplitude_vector), O @ ev(psi))
+            return differs(ev(wf.amplitudes), O @ ev(psi))
     except Exception as e:
         import traceback
 
